@@ -95,7 +95,7 @@ def world(rows):
             LeafSpec("F", "e1", ("a", "d"), FIXED_ROWS),
             LeafSpec("F2", "e1", ("a", "c"), FIXED2_ROWS),
             LeafSpec("F3", "e1", ("e", "g"), ((0, 3), (-1, 4), (-1, 5))),
-            LeafSpec("F4", "e1", ("g",), ((0,),)),  # exactly one row, shares no column with the targets  # keyed on a column targets only get by calculation
+            LeafSpec("F4", "e1", ("g",), ((1,),)),  # exactly one row, shares no column with the targets  # keyed on a column targets only get by calculation
         ),
     )
 
